@@ -112,6 +112,7 @@ func userConn(pl *plan) {
 		closeConn()
 		return
 	}
+	dialed := time.Now()
 	conn = raw
 	defer closeConn()
 	pl.setUserSide(nil, raw.LocalAddr().String(), raw.RemoteAddr().String())
@@ -368,6 +369,59 @@ func userConn(pl *plan) {
 			cs.run.Count("bytes_verified_down", res.N)
 		}
 		<-wdone
+		waitBackend(pl, false)
+	case "longidle":
+		up1, down1 := cfg.NUp/2, cfg.NDown/2
+		gUp := newGen(cfg.SeedUp, cfg.ClsUp)
+		for phase := 1; phase <= 2; phase++ {
+			nUp, wantDown := up1, down1
+			if phase == 2 {
+				// leave the connection untouched until IdleMs after it was opened (longer than any timer frps armed on it)
+				if !waitCh(pl.bGotAll, pl.bDone, 2*stallGrace) {
+					return
+				}
+				if d := time.Until(dialed.Add(time.Duration(cfg.IdleMs) * time.Millisecond)); d > 0 {
+					time.Sleep(d)
+				}
+				pl.inPhase2.Store(true)
+				close(pl.phase2)
+				nUp, wantDown = cfg.NUp-up1, cfg.NDown
+			}
+			wdone := make(chan error, 1)
+			go func() {
+				_, err := writeGen(conn, gUp, nUp, wrng, cfg.ChunkUp, false)
+				wdone <- err
+			}()
+			ok := phase == 2 || readIdent(false)
+			var res readRes
+			if ok {
+				res = readStream(conn, ckDown, wantDown, onRead)
+				if phase == 2 {
+					res.Base = down1
+				}
+				pl.uDown = res
+			} else {
+				closeConn()
+			}
+			werr := <-wdone
+			if !ok || !cs.judgeRead(pl, "down", res, wantDown, false) {
+				return
+			}
+			if werr != nil {
+				cs.failUnlessPeerFailed(pl, "unprompted-close", "proxy %s: user's write failed although neither endpoint had closed: %v", px.name, werr)
+				return
+			}
+			if phase == 1 {
+				close(pl.uGotAll)
+			} else {
+				cs.run.Count("long_lived_connections_checked_after_idle", 1)
+				cs.run.Count("long_lived_"+px.cfg.Kind, 1)
+			}
+		}
+		if !waitCh(pl.bGot2, pl.bDone, 2*stallGrace) {
+			return
+		}
+		closeConn()
 		waitBackend(pl, false)
 	case "idle":
 		if !readIdent(false) {
